@@ -205,7 +205,7 @@ def run(ctx, reps, known):
     env = {"ASAN_OPTIONS": "exitcode=77:detect_leaks=1:allocator_may_return_null=1:abort_on_error=0:leak_check_at_exit=0"}
     import time
     t0 = time.time()
-    out = ctx.batch([(j.name, script(j.rep, j.blob, j.route)) for j in jobs], clean=True, op_timeout=3, env=env)
+    out = ctx.batch([(j.name, script(j.rep, j.blob, j.route)) for j in jobs], clean=True, op_timeout=3, env=env, retry_timeouts=False)
     stats = {"jobs": len(jobs), "by_kind": {}, "open_ok": 0, "open_null": 0, "hang": 0, "known_loop": 0}
     viol = []
     kf = known.get("KF-C03-pipe-chunk-loop")
